@@ -128,8 +128,13 @@ func (l *link) transmit(b []byte, split bool) error {
 		b = b[n:]
 		if split && len(b) > 0 {
 			dsim.EnsureReleased("peer-split")
-			if dsim.Choose(3) == 0 {
+			switch c := dsim.Choose(30); {
+			case c < 10:
 				dsim.Sleep(time.Duration(1+dsim.Choose(400)) * time.Millisecond)
+			case c == 29 && l.e.cfg.idleTO > 0 && l.e.cfg.idleTO < 10*time.Second:
+				// a slow link: the rest of the frame comes later than the node's idle timeout
+				count("fault:mid-frame-pause-beyond-idle-timeout")
+				dsim.Sleep(l.e.cfg.idleTO + time.Duration(100+dsim.Choose(900))*time.Millisecond)
 			}
 		}
 	}
